@@ -10,7 +10,8 @@ Run-time frame contracts on the REAL bionumpy functions over an enumerated small
   histories:        a chunk that ALREADY carries user-set values (column assigned, or made by bnp.replace) keeps its
                     fields, tolist() and written bytes when a second public operation (replace of another column,
                     reverse complement / translation, indexing, concatenate, writing ...) is applied to it
-                    ("chunk:<format>:history:<operation>:original-<observable>-changed").
+                    ("chunk:history:<operation>:original-field-changed" / "-tolist-changed",
+                    "chunk:<format>:history:<operation>:original-written-bytes-changed").
 
 The oracle is the statement itself: equality of snapshots (taken with copy.deepcopy, so that taking the snapshot
 does not change the aliasing state of lazily sliced ragged arrays) - results are never compared with an expected
@@ -1293,11 +1294,16 @@ def _history_baseline(env, mode, f1, read_first, light):
     return env._hist_base[key]
 
 
-def _compare_obs(col, case, signature_of, base, got, what):
-    """first observable that differs -> one failure '<...>-field-changed' / '-written-bytes-changed' / '-tolist-changed'"""
+def _compare_obs(col, case, fmt, op, base, got, what):
+    """first observable that differs -> one failure.  Values held by the lazy table (fields, tolist) do not depend on the
+    format: 'chunk:history:<op>:original-field-changed' / '-tolist-changed' for every format; the written bytes do:
+    'chunk:<format>:history:<op>:original-written-bytes-changed'"""
     for (k, a), (_, b) in zip(base, got):
         if a != b:
-            col.fail(signature_of(k.split(":")[0]), case, "%s, %s: %s" % (what, k, first_diff(a, b)))
+            o = k.split(":")[0]
+            signature = ("chunk:history:%s:original-%s-changed" % (op, o) if o != "written-bytes" else
+                         "chunk:%s:history:%s:original-%s-changed" % (fmt, op, o))
+            col.fail(signature, case, "%s, %s: %s" % (what, k, first_diff(a, b)))
             return False
     return True
 
@@ -1393,7 +1399,7 @@ def _eval_history(col, env, scenario, case, sig):
     except Exception:
         applied = False
     got = _observe(env, T, light)
-    _compare_obs(col, case, lambda o: sig("history:%s:original-%s-changed" % (opc, o)), base, got,
+    _compare_obs(col, case, env.fmt, opc, base, got,
                  "chunk with %s set by %s, after %s%s" % (f1, mode, op, "(%s)" % f2 if f2 else ""))
     s1 = snap(watched)
     col.check(s1 == s_watched, sig("history:%s:value-handed-over-changed" % opc), case,
@@ -1407,7 +1413,7 @@ def _eval_history(col, env, scenario, case, sig):
         _check_unchanged(col, env, B, pB, case, sig, "second-operation-on-its-replaced-copy")
         for p in env.paths:
             v = read_snap(B, p)
-            if not col.check(v == env.V0[p], sig("history:%s:source-chunk-field-changed" % opc), case,
+            if not col.check(v == env.V0[p], "chunk:history:%s:source-chunk-field-changed" % opc, case,
                              "field %s of the chunk that was read: %s" % (p, first_diff(env.V0[p], v))):
                 break
     return applied
@@ -1439,7 +1445,7 @@ def _eval_history_chain(col, env, scenario, case, sig):
             env._hist_base[key] = _observe(env, _chain(env, fields, j, by_setattr)[j])
         base = env._hist_base[key]
         got = _observe(env, ts[j])
-        ok = _compare_obs(col, case, lambda o: sig("history:replace-chain:original-%s-changed" % o), base, got,
+        ok = _compare_obs(col, case, env.fmt, "replace-chain", base, got,
                           "chunk number %d of the replace chain over %r" % (j, fields)) and ok
     return True
 
